@@ -21,7 +21,7 @@ func (x *Exec) call(st *State, i *ssa.Call, fr *frame, k func(*State)) {
 		args = append(args, x.val(st, a))
 	}
 	if c.IsInvoke() {
-		x.invoke(st, i, args, k)
+		x.invoke(st, i, args, fr, k)
 		return
 	}
 	callee := c.StaticCallee()
@@ -44,6 +44,13 @@ func (x *Exec) call(st *State, i *ssa.Call, fr *frame, k func(*State)) {
 		k(st)
 		return
 	}
+	x.callStatic(st, i, callee, args, binds, fr, k)
+}
+
+// callStatic: a call whose callee is known (static call, closure, or an interface method call
+// on a value whose dynamic type is known).
+func (x *Exec) callStatic(st *State, i *ssa.Call, callee *ssa.Function, args, binds []Value, fr *frame, k func(*State)) {
+	c := i.Common()
 	fi := x.W.funcInfo(callee)
 	setResult := func(s *State, rs []Value) {
 		switch len(rs) {
@@ -135,6 +142,18 @@ func (x *Exec) applyContract(st *State, i *ssa.Call, fi *FuncInfo, fs *FuncSpec,
 	eff := &effects{cells: map[*ssa.Alloc]bool{}, heaps: map[string]*heapEff{}, globals: map[*ssa.Global]bool{}}
 	x.resultEffects(st, callee, eff)
 	for _, c := range fs.Clauses {
+		if c.Kind == "dyntype" && callee.Pkg != nil {
+			// an interface result holding a freshly allocated object of the module
+			if f := strings.Fields(c.Text); len(f) == 2 {
+				if tm, ok := callee.Pkg.Members[strings.TrimPrefix(f[1], "*")].(*ssa.Type); ok {
+					if named, ok := tm.Type().(*types.Named); ok {
+						x.typeHeapEffects(st, &STy{K: TPtr, Named: named}, eff)
+					}
+				}
+			}
+		}
+	}
+	for _, c := range fs.Clauses {
 		if c.Kind != "assigns" || strings.TrimSpace(c.Text) == "nothing" {
 			continue
 		}
@@ -182,13 +201,24 @@ func (x *Exec) applyContract(st *State, i *ssa.Call, fi *FuncInfo, fs *FuncSpec,
 					if named, ok := tm.Type().(*types.Named); ok {
 						ref := FreshVar(callee.Name()+"!obj", RegSort)
 						st.assume(BVCmp("bvult", ref, st.alloc))
-						st.assume(Not(Eq(ref, BVInt(0, 32))))
 						v = VIfaceObj{Obj: PObj{ref, &STy{K: TPtr, Named: named}}, Ty: tyFromGo(res.At(j).Type())}
 					}
 				}
 			}
 		}
+		switch o := v.(type) {
+		case PObj:
+			x.wfResultObject(st, o, 0)
+		case VIfaceObj:
+			x.wfResultObject(st, o.Obj, 0)
+		}
 		rs = append(rs, v)
+	}
+	for _, c := range fs.Clauses {
+		if c.Kind == "logged" {
+			// an external call recorded in the call log (arguments as they were at the call)
+			st.effects = append(st.effects, Effect{Kind: fi.Key, Args: args, Rets: rs, Heap: old.heaps})
+		}
 	}
 	post := x.funcEnvExt(fi, fs, "post", st, old, args, rs)
 	for _, c := range fs.Clauses {
@@ -262,6 +292,11 @@ func (x *Exec) funcEnvExt(fi *FuncInfo, fs *FuncSpec, mode string, cur, old *Sta
 // calleeAssign translates an assigns item of a callee at a call site into heap effects and
 // checks that the caller itself is allowed to modify that state.
 func (x *Exec) calleeAssign(st *State, fi *FuncInfo, pre *Env, it string, eff *effects, i *ssa.Call) {
+	if key, gfn, k, ok := x.ghostItem(pre, it); ok {
+		x.frameCheckGhost(st, key, k, it, i)
+		x.addGhostEff(st, eff, gfn, []*Term{k}, false)
+		return
+	}
 	if strings.HasSuffix(it, "[*]") {
 		e, err := ParseExpr(strings.TrimSuffix(it, "[*]"))
 		if err != nil {
@@ -276,6 +311,13 @@ func (x *Exec) calleeAssign(st *State, fi *FuncInfo, pre *Env, it string, eff *e
 			vfail("assigns %s: not a slice", it)
 		}
 		x.frameCheckRegion(st, s.Reg, i)
+		if fi.Spec != nil && fi.Spec.External && s.Off != nil && s.Len != nil && s.Ty.Elem.scalarSort() != nil {
+			// assumed contract of an external: "p[*]" means exactly the elements p[0..len(p))
+			x.addHeapEff(st, eff, s.Ty.Elem, nil, false)
+			he := eff.heaps[heapKey(s.Ty.Elem, "")]
+			he.wins = append(he.wins, heapWin{s.Reg, s.Off, s.Len})
+			return
+		}
 		x.addHeapEff(st, eff, s.Ty.Elem, []*Term{s.Reg}, false)
 		return
 	}
@@ -517,8 +559,21 @@ func (x *Exec) copyCall(st *State, i *ssa.Call) {
 
 // ---------- interface method calls ----------
 
-func (x *Exec) invoke(st *State, i *ssa.Call, args []Value, k func(*State)) {
+func (x *Exec) invoke(st *State, i *ssa.Call, args []Value, fr *frame, k func(*State)) {
 	c := i.Common()
+	if io, ok := x.val(st, c.Value).(VIfaceObj); ok {
+		// the dynamic type is known (a pointer to a struct of the module): ordinary method call
+		x.oblige(st, "nil", instrOrd(i), "method call on a non-nil interface value", i.Pos(), Not(Eq(io.Obj.Ref, BVInt(0, 32))))
+		st.assume(Not(Eq(io.Obj.Ref, BVInt(0, 32))))
+		ms := x.W.Prog.MethodSets.MethodSet(types.NewPointer(io.Obj.Ty.Named))
+		sel := ms.Lookup(c.Method.Pkg(), c.Method.Name())
+		if sel == nil {
+			vfail("dynamic type %s has no method %s", io.Obj.Ty.Named, c.Method.Name())
+		}
+		callee := x.W.Prog.MethodValue(sel)
+		x.callStatic(st, i, callee, append([]Value{io.Obj}, args...), nil, fr, k)
+		return
+	}
 	recvT := c.Value.Type()
 	name := types.TypeString(recvT, func(p *types.Package) string { return p.Path() }) + "." + c.Method.Name()
 	fs := x.W.FuncSpecs[name]
@@ -569,7 +624,15 @@ func (x *Exec) invoke(st *State, i *ssa.Call, args []Value, k func(*State)) {
 	for kk, v := range st.heaps {
 		heapSnap[kk] = v
 	}
-	st.effects = append(st.effects, Effect{Kind: name, Args: callArgs, Rets: rs, Heap: heapSnap})
+	logged := true
+	for _, cl := range fs.Clauses {
+		if cl.Kind == "pure" {
+			logged = false // a query method: assumed to change nothing observable; kept out of the call log
+		}
+	}
+	if logged {
+		st.effects = append(st.effects, Effect{Kind: name, Args: callArgs, Rets: rs, Heap: heapSnap})
+	}
 	for _, cl := range fs.Clauses {
 		if cl.Kind == "ensures" {
 			t, err := ev.EvalBool(cl.E)
@@ -655,12 +718,94 @@ func (x *Exec) specialCall(st *State, i *ssa.Call, callee *ssa.Function, args []
 		}
 		vfail("must.Be.%s is not modelled", callee.Name())
 	}
+	// golang/protobuf legacy messages: a message type with its own Marshal / Reset+Unmarshal
+	// methods is encoded / decoded by those methods (documented legacy support, ASSUMED)
+	if callee.Pkg != nil && callee.Pkg.Pkg.Path() == "github.com/golang/protobuf/proto" {
+		method := func(v Value, name string) (*ssa.Function, PObj, bool) {
+			io, ok := v.(VIfaceObj)
+			if !ok {
+				return nil, PObj{}, false
+			}
+			ms := x.W.Prog.MethodSets.MethodSet(types.NewPointer(io.Obj.Ty.Named))
+			for j := 0; j < ms.Len(); j++ {
+				if ms.At(j).Obj().Name() == name {
+					return x.W.Prog.MethodValue(ms.At(j)), io.Obj, true
+				}
+			}
+			return nil, PObj{}, false
+		}
+		note := "golang/protobuf: proto.Marshal(m) / proto.Unmarshal(b, m) of a message type that has its own Marshal() / Reset()+Unmarshal([]byte) methods return what those methods return (documented legacy Marshaler/Unmarshaler support; assumed)"
+		switch callee.Name() {
+		case "Marshal":
+			if m, obj, ok := method(args[0], "Marshal"); ok && m.Signature.Params().Len() == 0 && m.Signature.Results().Len() == 2 {
+				x.W.Assumes[note] = true
+				x.callStatic(st, i, m, []Value{obj}, nil, fr, k)
+				return true
+			}
+		case "Unmarshal":
+			rs, obj, ok1 := method(args[1], "Reset")
+			um, _, ok2 := method(args[1], "Unmarshal")
+			if ok1 && ok2 && um.Signature.Params().Len() == 1 && um.Signature.Results().Len() == 1 {
+				x.W.Assumes[note] = true
+				x.callStatic(st, i, rs, []Value{obj}, nil, fr, func(s *State) {
+					x.callStatic(s, i, um, []Value{obj, args[0]}, nil, fr, k)
+				})
+				return true
+			}
+		}
+	}
+	// encoding/binary.Size of a pointer to a struct of fixed-size fields: computed from the
+	// declared type (documented: the sum of the sizes of the fields, no padding)
+	if callee.Pkg != nil && callee.Pkg.Pkg.Path() == "encoding/binary" && callee.Name() == "Size" {
+		if io, ok := args[0].(VIfaceObj); ok {
+			if n, ok := binarySize(io.Obj.Ty.Named.Underlying()); ok {
+				x.W.Assumes["encoding/binary.Size(&T{}) is the sum of the fixed sizes of T's fields (documented; computed here from the declared type "+io.Obj.Ty.Named.Obj().Name()+")"] = true
+				setResult(st, []Value{VScalar{BVInt(n, 64), tyInt}})
+				k(st)
+				return true
+			}
+		}
+	}
 	// a function whose real body does nothing (e.g. the release-build stubs of openacid/must)
 	if callee.Signature.Results().Len() == 0 && isTrivialNoop(callee) {
 		k(st)
 		return true
 	}
 	return false
+}
+
+// binarySize: encoding/binary's size of a fixed-size type (-1/false when not fixed-size).
+func binarySize(t types.Type) (int64, bool) {
+	switch u := t.Underlying().(type) {
+	case *types.Basic:
+		switch u.Kind() {
+		case types.Bool, types.Int8, types.Uint8:
+			return 1, true
+		case types.Int16, types.Uint16:
+			return 2, true
+		case types.Int32, types.Uint32, types.Float32:
+			return 4, true
+		case types.Int64, types.Uint64, types.Float64, types.Complex64:
+			return 8, true
+		case types.Complex128:
+			return 16, true
+		}
+	case *types.Array:
+		if n, ok := binarySize(u.Elem()); ok {
+			return n * u.Len(), true
+		}
+	case *types.Struct:
+		var sum int64
+		for i := 0; i < u.NumFields(); i++ {
+			n, ok := binarySize(u.Field(i).Type())
+			if !ok {
+				return 0, false
+			}
+			sum += n
+		}
+		return sum, true
+	}
+	return 0, false
 }
 
 // isTrivialNoop reads the callee's SSA: only parameter spills, defer bookkeeping and a bare return.
